@@ -149,6 +149,15 @@ CHECKS = {
         "Both renderings come from one abstract statement list (same meaning by construction; transformed text sampled through gfortran). indent <= 4.",
         "DESIGN.md §3 C13",
     ),
+    "C14": (
+        "exploration",
+        "metamorphic / differential testing of paired fixed-form and free-form renderings of generated programs; form-detection oracle from the renderer",
+        "Each generated program is rendered in fixed form (column rules, drawn continuation mark and comment flags, labelled DO with shared "
+        "terminal labels, 72-column limit; gfortran-validated on a sample) and in free form; the file's `fixed` flag must be True resp. False, and "
+        "the fixed rendering's outline, per-occurrence definition targets and diagnostics must equal the free rendering's by entity/statement.",
+        "Heuristic form detection is known to misclassify two free layouts (listed as known findings); continuation-related differences are classified as in C13.",
+        "DESIGN.md §3 C14",
+    ),
 }
 
 NOT_YET = "check not built yet in this session (work in progress; see DESIGN.md §3 for the planned generator and oracle)"
